@@ -28,7 +28,8 @@ def get_uf(d, order):
 
 
 class Cfg:
-    def __init__(self, layout="dense", calib="none", strategy="filter", lin="ts0", q=1, d=1, order=1, relin=False, pytree=False):
+    def __init__(self, layout="dense", calib="none", strategy="filter", lin="ts0", q=1, d=1, order=1, relin=False, pytree=False, taylor="prior"):
+        self.taylor = taylor  # "prior": linearise at the mean; "abstract": uninterpreted Taylor point xi(mean, cholesky) (dense TS1)
         self.layout, self.calib, self.strategy, self.lin = layout, calib, strategy, lin
         self.q, self.d, self.order, self.relin = q, d, order, relin
         self.pytree = pytree  # state is the pytree {"a": (1,), "b": (d-1,)} instead of an array of shape (d,)
@@ -37,7 +38,7 @@ class Cfg:
     @property
     def name(self):
         s = f"{self.layout},{self.calib},{self.strategy},{self.lin},q={self.q},d={self.d},order={self.order}"
-        return s + (",relin" if self.relin else "") + (",pytree" if getattr(self, "pytree", False) else "")
+        return s + (",relin" if self.relin else "") + (",pytree" if getattr(self, "pytree", False) else "") + (",taylor=" + self.taylor if getattr(self, "taylor", "prior") != "prior" else "")
 
 
 def pack(cfg, v):
@@ -51,6 +52,28 @@ def unpack(cfg, x):
     if not getattr(cfg, "pytree", False):
         return x
     return jnp.concatenate([jnp.reshape(x["a"], (-1,)), jnp.reshape(x["b"], (-1,))])
+
+
+_TP = {}
+
+
+def taylor_point_uf(N):
+    """Uninterpreted Taylor point  xi(mean, cholesky) in R^N  (stands for every rule that may use the covariance)."""
+    if N not in _TP:
+        _TP[N] = prims.make_uf(f"taylor_point_{N}", [(N,), (N, N)], (N,), native=lambda m, c: m + 0.05 * jnp.tanh(c @ jnp.ones((N,))), time_arg=False)
+    return _TP[N]
+
+
+class AbstractTaylorPoint:
+    def __call__(self, constraint_flat, rv, **kw):
+        return taylor_point_uf(rv.mean_flat.shape[0])(rv.mean_flat, rv.cholesky_flat)
+
+
+def lin_point(cfg, rv):
+    """Where the specification linearises for a constraint handed the random variable ``rv``."""
+    if getattr(cfg, "taylor", "prior") == "abstract":
+        return taylor_point_uf(rv.mean_flat.shape[0])(rv.mean_flat, rv.cholesky_flat)
+    return rv.mean_flat
 
 
 def make_ode(cfg):
@@ -70,7 +93,11 @@ def make_solver(cfg, constraint_init=False):
 
     ssm = {"dense": pd.state_space_model_dense, "isotropic": pd.state_space_model_isotropic, "blockdiag": pd.state_space_model_blockdiag}[cfg.layout]()
     ode = make_ode(cfg)
-    constraint = ssm.constraint_ode_ts0(ode) if cfg.lin == "ts0" else ssm.constraint_ode_ts1(ode)
+    if getattr(cfg, "taylor", "prior") == "abstract":
+        assert cfg.layout == "dense" and cfg.lin == "ts1"
+        constraint = ssm.constraint_ode_ts1(ode, taylor_point=AbstractTaylorPoint())
+    else:
+        constraint = ssm.constraint_ode_ts0(ode) if cfg.lin == "ts0" else ssm.constraint_ode_ts1(ode)
     strategy = {"filter": pd.strategy_filter, "fixedinterval": pd.strategy_smoother_fixedinterval, "fixedpoint": pd.strategy_smoother_fixedpoint}[cfg.strategy]()
     kw = {"constraint_init": constraint} if constraint_init else {}
     if cfg.calib == "none":
